@@ -1,0 +1,20 @@
+//go:build verif
+
+package cli
+
+// Contracts for govc (contract-based deductive verification). Comment-only file.
+
+// ---- C07: `amtool config routes test` names the receiver of every route the routing function chooses for the label
+// set - one name per chosen route, in the routing function's order, repeated when several chosen routes share a
+// receiver - so that its answer is the dispatcher's and the API's.
+//@ func resolveAlertReceivers
+//@   props C07
+//@   requires mainRoute != nil && labels != nil
+//@   after call Route).Match assume forall i int :: 0 <= i && i < len(res0) ==> res0[i] != nil
+//@   at call Route).Match assert [the-routing-function-of-the-tree-given] arg0 == mainRoute
+//@   ensures [one-name-per-chosen-route-in-order] result1 == nil && count("Route).Match") == 1 && len(result0) == len(ret("Route).Match"))
+//@             && (forall i int :: 0 <= i && i < len(result0) ==> result0[i] == ret("Route).Match")[i].RouteOpts.Receiver)
+//@   loop 1 invariant rangeindex < len(finalRoutes) && len(receivers) == rangeindex + 1 && (receivers == nil || fresh(receivers)) && finalRoutes == ret("Route).Match")
+//@   loop 1 invariant forall i int :: 0 <= i && i < len(receivers) ==> receivers[i] == finalRoutes[i].RouteOpts.Receiver
+//@   noeffect Route).Match convertClientToCommonLabelSet
+//@   assigns nothing
